@@ -1,2 +1,4 @@
 import IQE.Props.C31
 #print axioms IQE.Props.C31.C31_checker_sound
+#print axioms IQE.Props.C31.C31_wf_runs
+#print axioms IQE.Props.C31.C31_wf_runs_scoped
